@@ -102,7 +102,7 @@ try:
     else:
         rc, out = sh("./vcheck run %s --tier %s" % (prop, tier), cwd="/verif", extra={"VERIF_REPO": wt}, timeout=7200)
         res["check_rc"], res["check_s"] = rc, round(time.time() - t0, 1)
-        res["check_violations"] = [l.strip() for l in out.splitlines() if l.startswith("   ")][:8]
+        res["check_violations"] = [l.strip() for l in out.splitlines() if l.startswith("   ") and re.match(r"\s+(C\d+\||\w+\|xcfg\|)", l)][:8]
         res["check_tail"] = out[-800:] if rc not in (0, 1) else ""
     res["confirmed"] = bool(res["demo_clean_rc"] == 0 and res["apply_rc"] == 0 and res["build_rc"] == 0 and res["demo_patched_rc"] != 0 and not res.get("pkg_tests_failed"))
     res["caught"] = rc == 1
